@@ -226,7 +226,15 @@ class StmtMixin:
                 out.append(ind + '/* reference %s aliases %s */' % (name, lv))
                 self.rules['ref-local-as-alias'] += 1
             else:
-                out.append(ind + '%s* %s = %s;' % (t.c, name, self.addr(lv)))
+                pt = t
+                if t.kind == 'opaque':
+                    # `const auto&` bound to a call whose declared result is a dependent alias (mapped_type ...): the type of
+                    # the initialiser expression is the resolved one
+                    try:
+                        et = self.etype(core)
+                        if et.c != t.c: pt = et; self.rules['ref-local-type-from-initialiser'] += 1
+                    except Unsupported: pass
+                out.append(ind + '%s* %s = %s;' % (pt.c, name, self.addr(lv)))
                 self.vars[d['id']] = ('ptr', name)
                 self.rules['ref-local-as-pointer'] += 1
             return
@@ -348,9 +356,18 @@ class StmtMixin:
                         rd = x.get('referencedDecl', {})
                         if rd.get('id'): self.vars[rd['id']] = ('alias', '%s.%s' % (name, fld))
                 self.rules['range-for:opaque-sequence(structured binding)'] += 1
+            elif lt.ref and self.u.get('iter_refs') == 'pointer':
+                # `for (const auto& x : set)`: x is a REFERENCE to what the iterator exposes (for lazy sets: an entry of the
+                # set's element cache).  Modelled as a pointer the spec hands out (<T>_iter_ref) and may invalidate, so a use
+                # of x after the cache may have been cleared is visible to the contracts.
+                fn = '%s_iter_ref' % rt.c
+                self.autostubs.setdefault(fn, '%s* %s(const %s* this_, size_t index);' % (lt.c, fn, rt.c)); self.fninfo.setdefault(fn, {'qname': fn, 'stub': True})
+                out.append(i3 + 'const %s* %s_p_ = %s(%s, %s);' % (lt.c, name, fn, self.addr(rng), ix))
+                self.vars[lv['id']] = ('alias', '(*%s_p_)' % name)
+                self.rules['range-for:opaque-sequence(reference as pointer)'] += 1
             else:
                 out.append(i3 + '%s %s = %s_iter_get(%s, %s);' % (lt.c, name, rt.c, self.addr(rng), ix))
-            self.vars[lv['id']] = ('val', name)
+            if lv['id'] not in self.vars or self.vars[lv['id']][0] != 'alias' or lv.get('kind') == 'DecompositionDecl': self.vars[lv['id']] = ('val', name)
             self.rules['range-for:opaque-sequence'] += 1
             self.range_cleanup.append(None)
             self.stmt(body, out, i3)
